@@ -359,7 +359,52 @@ pub fn prop_c06(before: &Url, op: &Op, after: &Url, status: &str) -> Option<Stri
             return Some(format!("{} changed {} from {} to {}", op.kind(), name, a, b));
         }
     }
-    None
+    get_after_set(before, op, after)
+}
+
+/// C06 get-after-set for the plain cases: the component written by a successful setter reads back as what the
+/// parser produces for the same text spliced into the same position of the old serialization.  Evaluated only
+/// for hierarchical URLs with an authority and a '/'-led path and for arguments free of tab/newline and of the
+/// delimiters that would end the component (anything else is the business of the known classes).
+fn get_after_set(before: &Url, op: &Op, after: &Url) -> Option<String> {
+    if before.cannot_be_a_base() || !before.has_authority() || !before.path().starts_with('/') {
+        return None;
+    }
+    let plain = |s: &str, extra: &str| !s.is_empty() && !s.chars().any(|c| c <= ' ' || extra.contains(c));
+    let b = std::panic::AssertUnwindSafe(before);
+    let a = std::panic::AssertUnwindSafe(after);
+    let op = op.clone();
+    guarded_opt(move || {
+        let s = b.as_str();
+        let pre_host = &b[..Position::BeforeHost];
+        let post_host = &b[Position::AfterHost..];
+        let (what, spliced, get): (&str, String, fn(&Url) -> String) = match &op {
+            // (file URLs: a host in front of a drive-letter path and the host "localhost" are dropped by the
+            // parser - known family, listed in url/tests/expected_failures.txt / known findings)
+            Op::SetHost(Some(h)) if plain(h, "/\\?#@:[]%")
+                && !(b.scheme() == "file" && (a.host_str() == Some("localhost") || {
+                    let p = b.path().as_bytes();
+                    p.len() >= 3 && p[1].is_ascii_alphabetic() && (p[2] == b':' || p[2] == b'|')
+                })) => ("host", format!("{}{}{}", pre_host, h, post_host), |u| format!("{:?}", u.host_str())),
+            Op::SetFragment(Some(f)) if plain(f, "") => ("fragment", format!("{}#{}", &b[..Position::AfterQuery], f), |u| format!("{:?}", u.fragment())),
+            Op::SetQuery(Some(q)) if plain(q, "#") => ("query", format!("{}?{}{}", &b[..Position::AfterPath], q, &b[Position::AfterQuery..]), |u| format!("{:?}", u.query())),
+            Op::SetUsername(n) if plain(n, "/\\?#@:") && b.password().is_none() && b.host_str().map_or(false, |h| !h.is_empty()) => {
+                ("username", format!("{}{}@{}", &b[..Position::BeforeUsername], n, &b[Position::BeforeHost..]), |u| u.username().to_string())
+            }
+            _ => return None,
+        };
+        let _ = s;
+        match Url::parse(&spliced) {
+            Ok(p) => {
+                if get(&p) != get(&a) {
+                    Some(format!("{}: {} reads back as {} but the parser gives {} for {:?}", op.kind(), what, get(&a), get(&p), spliced))
+                } else {
+                    None
+                }
+            }
+            Err(_) => None,
+        }
+    })
 }
 
 /// C15 (URL clause): a query_pairs_mut session leaves retained pairs followed by appended ones and
